@@ -27,6 +27,15 @@ pub struct AdtMetadata {
 }
 
 impl AdtMetadata {
+    /// Is the field of that name removed (or made transient) by a step that comes after step `step`? An earlier
+    /// removal concerns an earlier field of the same name.
+    pub(crate) fn removed_after(&self, step: usize, name: &str) -> bool {
+        self.removed_fields.contains(name)
+            && self.evolution_steps.iter().skip(step + 1).any(|evolution| {
+                matches!(evolution, Evolution::FieldRemoved { name: n } | Evolution::FieldMadeTransient { name: n } if n == name)
+            })
+    }
+
     pub fn new(evolution_steps: Vec<Evolution>) -> Self {
         #[cfg(feature = "verif-hooks")]
         crate::verif::metadata_built();
